@@ -7,6 +7,10 @@ import (
 	"strings"
 )
 
+// CustomJSONVerifier, when set, checks that a module type's MarshalJSON/UnmarshalJSON pair is symmetric; it returns
+// "" when verified and a reason otherwise. (Set by the rules package, which has the SSA program.)
+var CustomJSONVerifier func(t types.Type) string
+
 // jsonIssue is a reason why a value of a type does not survive encoding/json marshal+unmarshal unchanged.
 type jsonIssue struct {
 	Path string
@@ -29,6 +33,10 @@ func jsonWalk(t types.Type, path string, seen map[string]bool, out *[]jsonIssue,
 		m, u := hasMethod(t, "MarshalJSON"), hasMethod(types.NewPointer(deref(t)), "UnmarshalJSON")
 		if m != u {
 			*out = append(*out, jsonIssue{path, "type " + key + " has only one of MarshalJSON/UnmarshalJSON: encode and decode are not symmetric"})
+		} else if CustomJSONVerifier != nil && strings.Contains(key, "lidofinance/dc4bc") {
+			if why := CustomJSONVerifier(deref(t)); why != "" {
+				*out = append(*out, jsonIssue{path, "type " + key + " has a hand-written MarshalJSON/UnmarshalJSON pair that is not a recognised symmetric delegation: " + why})
+			}
 		}
 		return
 	}
